@@ -14,11 +14,11 @@ import sys
 N, SEED = int(sys.argv[1]), int(sys.argv[2])
 OUT = sys.argv[3] if len(sys.argv) > 3 else "/tmp/mutants_%d.json" % SEED
 OWNERS = [
-    ("location/", ["C01", "C02", "C03", "C04"]), ("parent/", ["C04", "C10", "C19"]), ("sequence/", ["C03", "C15"]),
-    ("gene/cds.py", ["C05", "C07", "C10"]), ("gene/cds_frame.py", ["C15", "C05"]), ("gene/codon.py", ["C15", "C05"]),
-    ("gene/transcript.py", ["C06", "C07", "C08", "C14"]), ("gene/feature.py", ["C14", "C20", "C08", "C07"]),
-    ("gene/gene.py", ["C20", "C09", "C08"]), ("gene/collections.py", ["C09", "C16", "C20", "C08"]),
-    ("gene/variants.py", ["C13", "C08"]), ("gene/interval.py", ["C06", "C07", "C10", "C08"]), ("gene/biotype.py", ["C15"]),
+    ("location/", ["C01", "C02", "C03", "C04", "C19"]), ("parent/", ["C04", "C10", "C19"]), ("sequence/", ["C03", "C15"]),
+    ("gene/cds.py", ["C05", "C07", "C10", "C19"]), ("gene/cds_frame.py", ["C15", "C05"]), ("gene/codon.py", ["C15", "C05"]),
+    ("gene/transcript.py", ["C06", "C07", "C08", "C14", "C19"]), ("gene/feature.py", ["C14", "C20", "C08", "C07", "C19"]),
+    ("gene/gene.py", ["C20", "C09", "C08", "C19"]), ("gene/collections.py", ["C09", "C16", "C20", "C08", "C19"]),
+    ("gene/variants.py", ["C13", "C08", "C19"]), ("gene/interval.py", ["C06", "C07", "C10", "C08"]), ("gene/biotype.py", ["C15"]),
     ("util/bins.py", ["C16"]), ("util/hashing.py", ["C08"]), ("util/object_validation.py", ["C19", "C04"]),
     ("io/gff3/", ["C11", "C18", "C19"]), ("io/genbank/", ["C12", "C18"]), ("io/ncbi/", ["C17"]), ("io/bed/", ["C14"]),
     ("io/vcf/", ["C13"]), ("io/features", ["C18"]), ("io/models.py", ["C08", "C19"]), ("io/parser.py", ["C07", "C08"]),
